@@ -5,6 +5,8 @@
     h^2*c3 for degree 3), and the adjoint identities <A v, w> = <v, A^T w>.
     Proofs: Thm/Dual.v, Thm/Adjoint.v. *)
 From Dino Require Import Base.Ops Base.Sums Base.Inst Base.Ord Model.Dual Model.Sigma Model.Combinators Thm.Dual Thm.Adjoint Thm.Combinators.
+From Dino Require Gen.DerivExprs Model.SHT Model.Deriv Model.Implicit Model.PrimEq Model.Filters Thm.Deriv.
+From Dino Require Import Thm.AdjointOps Thm.AdjointJvp Thm.AdjointLin.
 From Coq Require Import Qcanon.
 Local Open Scope F_scope.
 
@@ -104,6 +106,230 @@ Proof.
   cbv zeta. repeat split; try reflexivity; try (cbn; lia); apply Qc_is_canon; vm_compute; reflexivity.
 Qed.
 
+
+(** ** Transposes of the concrete linear operators and forward mode of the concrete nonlinear
+    nodal terms (Thm/AdjointOps.v, Thm/AdjointJvp.v, Thm/AdjointLin.v).  All sizes, every carrier. *)
+Section C08ops.
+  Context {F : Type} {o : Ops F} {Fc : FieldC o}.
+
+  (** *** (a) spherical-harmonic transforms: mutually adjoint up to the quadrature weights,
+      for arbitrary tables f, p, w *)
+  Theorem C08_synth_analysis_adjoint (K L I J : nat) (f : nat -> nat -> F) (p : nat -> nat -> nat -> F) (w : nat -> F) x z :
+    dot2w I J w (SHT.synth K L J f p x) z = dot2 K L x (SHT.analysis K I J f p w z).
+  Proof. exact (synth_analysis_adjoint K L I J f p w x z). Qed.
+
+  Theorem C08_synth_adjoint (K L I J : nat) (f : nat -> nat -> F) (p : nat -> nat -> nat -> F) (x z : nat -> nat -> F) :
+    dot2 I J (SHT.synth K L J f p x) z = dot2 K L x (synthT I J f p z).
+  Proof. exact (synth_adjoint K L I J f p x z). Qed.
+
+  Theorem C08_synthT_is_unweighted_analysis (K L I J : nat) (f : nat -> nat -> F) (p : nat -> nat -> nat -> F) (z : nat -> nat -> F) a l : (a < K)%nat ->
+    synthT I J f p z a l = SHT.analysis K I J f p (fun _ => 1) z a l.
+  Proof. exact (synthT_is_unweighted_analysis K I J f p z a l). Qed.
+
+  Theorem C08_analysis_adjoint (K L I J : nat) (f : nat -> nat -> F) (p : nat -> nat -> nat -> F) (w : nat -> F) z y :
+    dot2 K L (SHT.analysis K I J f p w z) y = dot2 I J z (analysisT K L f p w y).
+  Proof. exact (analysis_adjoint K L I J f p w z y). Qed.
+
+  Theorem C08_analysisT_is_weighted_synth (K L J : nat) (f : nat -> nat -> F) (p : nat -> nat -> nat -> F) (w : nat -> F) y i j : (j < J)%nat ->
+    analysisT K L f p w y i j = w j * SHT.synth K L J f p y i j.
+  Proof. exact (analysisT_is_weighted_synth K L J f p w y i j). Qed.
+
+  Theorem C08_synth_jvp_is_self (K L J : nat) (f : nat -> nat -> F) (p : nat -> nat -> nat -> F) (x v : nat -> nat -> F) i j : (j < J)%nat ->
+    SHT.synth (o := DualOps) K L J (fun i a => dconst (f i a)) (fun a j l => dconst (p a j l))
+              (fun a l => dvar (x a l) (v a l)) i j
+    = mkdual (SHT.synth K L J f p x i j) (SHT.synth K L J f p v i j).
+  Proof. exact (synth_jvp_is_self K L J f p x v i j). Qed.
+
+  (** *** (b) spectral derivative operators *)
+  Theorem C08_d_dlon_skew (fast : bool) (R : nat) (x y : nat -> nat -> F) l :
+    Thm.Deriv.layout_ok fast R ->
+    sumn R (fun i => Deriv.d_dlon fast R x i l * y i l) = - sumn R (fun i => x i l * Deriv.d_dlon fast R y i l).
+  Proof. exact (d_dlon_skew fast R x y l). Qed.
+
+  Theorem C08_D1_adjoint (L C : nat) (a b x y : nat -> nat -> F) i :
+    sumn C (fun l => Deriv.D1 L C a b x i l * y i l) = sumn C (fun l => x i l * D1T L C a b y i l).
+  Proof. exact (D1_adjoint L C a b x y i). Qed.
+
+  Theorem C08_D2_adjoint (L C : nat) (a b x y : nat -> nat -> F) i :
+    sumn C (fun l => Deriv.D2 L C a b x i l * y i l) = sumn C (fun l => x i l * D2T L C a b y i l).
+  Proof. exact (D2_adjoint L C a b x y i). Qed.
+
+  Theorem C08_D1T_is_neg_D2 (L C : nat) (a b y : nat -> nat -> F) i l :
+    H_ab_shift C a b -> H_b_trunc L C b -> (l < C)%nat ->
+    D1T L C a b y i l = - Deriv.D2 L C a b y i l.
+  Proof. exact (D1T_is_neg_D2 L C a b y i l). Qed.
+
+  Theorem C08_diag_self_adjoint (L C n : nat) (r : F) (x y : nat -> nat -> F) i l :
+    Deriv.laplacian L r x i l * y i l = x i l * Deriv.laplacian L r y i l /\
+    Deriv.inverse_laplacian L r x i l * y i l = x i l * Deriv.inverse_laplacian L r y i l /\
+    Deriv.clip L C n x i l * y i l = x i l * Deriv.clip L C n y i l.
+  Proof.
+    split; [exact (laplacian_self_adjoint L r x y i l)|].
+    split; [exact (inverse_laplacian_self_adjoint L r x y i l) | exact (clip_self_adjoint L C n x y i l)].
+  Qed.
+
+  Theorem C08_cos_lat_grad_adjoint (fast : bool) (L R C : nat) (r : F) (a b x u v : nat -> nat -> F) :
+    Thm.Deriv.layout_ok fast R ->
+    dot2 R C (fst (Deriv.cos_lat_grad fast L R C r a b false x)) u
+    + dot2 R C (snd (Deriv.cos_lat_grad fast L R C r a b false x)) v
+    = dot2 R C x (cos_lat_gradT fast L R C r a b (u, v)).
+  Proof. exact (cos_lat_grad_adjoint fast L R C r a b x u v). Qed.
+
+  Theorem C08_grad_div_adjoint (fast : bool) (L R C : nat) (r : F) (a b x u v : nat -> nat -> F) :
+    Thm.Deriv.layout_ok fast R -> H_ab_shift C a b -> H_b_trunc L C b ->
+    dot2 R C (fst (Deriv.cos_lat_grad fast L R C r a b false x)) u
+    + dot2 R C (snd (Deriv.cos_lat_grad fast L R C r a b false x)) v
+    = - dot2 R C x (Deriv.div_cos_lat fast L R C r a b false (u, v)).
+  Proof. exact (grad_div_adjoint fast L R C r a b x u v). Qed.
+
+  (** *** (c) forward mode of the nodal column algebra of the primitive equations = explicit
+      product-rule linearisation.  [dcfg], [dmoist], [dcol]: constants with zero tangent, state
+      with tangent; [tracks X x dx]: X has primal part x and tangent dx. *)
+  Theorem C08_u_dot_grad_jvp (x dx : @PrimEq.NCol F) :
+    tracks (PrimEq.u_dot_grad (dcol x dx)) (PrimEq.u_dot_grad x) (d_u_dot_grad x dx).
+  Proof. exact (u_dot_grad_dual x dx). Qed.
+
+  Theorem C08_sigma_dot_jvp c G (g dg : nat -> F) : tracks G g dg ->
+    tracks (PrimEq.sigma_dot (dcfg c) G) (PrimEq.sigma_dot c g) (PrimEq.sigma_dot c dg).
+  Proof. exact (sigma_dot_dual c G g dg). Qed.
+
+  Theorem C08_vertical_tendency_jvp c W XX (w dw xx dxx : nat -> F) : tracks W w dw -> tracks XX xx dxx ->
+    tracks (PrimEq.vertical_tendency (dcfg c) W XX) (PrimEq.vertical_tendency c w xx)
+           (d_vertical_tendency c w xx dw dxx).
+  Proof. exact (vertical_tendency_dual c W XX w dw xx dxx). Qed.
+
+  Theorem C08_t_omega_jvp c Tf G VG (t dt g dg vg dvg : nat -> F) n :
+    thickness (Implicit.cb c) n <> 0 -> tracks Tf t dt -> tracks G g dg -> tracks VG vg dvg ->
+    PrimEq.t_omega_over_sigma_sp (dcfg c) Tf G VG n
+    = mkdual (PrimEq.t_omega_over_sigma_sp c t g vg n) (d_t_omega c t g vg dt dg dvg n).
+  Proof. exact (t_omega_dual c Tf G VG t dt g dg vg dvg n). Qed.
+
+  Theorem C08_temp_adiabatic_jvp c (x dx : @PrimEq.NCol F) n : thickness (Implicit.cb c) n <> 0 ->
+    PrimEq.temp_adiabatic (dcfg c) (dcol x dx) n
+    = mkdual (PrimEq.temp_adiabatic c x n) (d_temp_adiabatic c x dx n).
+  Proof. exact (temp_adiabatic_jvp c x dx n). Qed.
+
+  Theorem C08_temp_vertical_tendency_jvp c va (x dx : @PrimEq.NCol F) n :
+    PrimEq.temp_vertical_tendency (dcfg c) va (dcol x dx) n
+    = mkdual (PrimEq.temp_vertical_tendency c va x n) (d_temp_vertical_tendency c va x dx n).
+  Proof. exact (temp_vertical_tendency_jvp c va x dx n). Qed.
+
+  Theorem C08_kinetic_jvp (x dx : @PrimEq.NCol F) k : 1 + 1 <> 0 ->
+    PrimEq.kinetic (dcol x dx) k = mkdual (PrimEq.kinetic x k) (d_kinetic x dx k).
+  Proof. exact (kinetic_jvp x dx k). Qed.
+
+  Theorem C08_hsa_jvp (x dx : @PrimEq.NCol F) S (s ds : nat -> F) k : tracks S s ds ->
+    PrimEq.hsa_nodal (dcol x dx) S k = mkdual (PrimEq.hsa_nodal x s k) (d_hsa_nodal x dx s ds k) /\
+    PrimEq.hsa_mu (dcol x dx) S k = mkdual (PrimEq.hsa_mu x s k) (d_hsa_mu x dx s ds k) /\
+    PrimEq.hsa_mv (dcol x dx) S k = mkdual (PrimEq.hsa_mv x s k) (d_hsa_mv x dx s ds k).
+  Proof.
+    intros H. split; [exact (hsa_nodal_jvp x dx S s ds k H)|].
+    split; [exact (hsa_mu_jvp x dx S s ds k H) | exact (hsa_mv_jvp x dx S s ds k H)].
+  Qed.
+
+  Theorem C08_rt_jvp c m (x dx : @PrimEq.NCol F) Q QC QI (q dq qc dqc qi dqi : nat -> F) :
+    tracks Q q dq -> tracks QC qc dqc -> tracks QI qi dqi ->
+    tracks (PrimEq.rt_dry (dcfg c) (dcol x dx)) (PrimEq.rt_dry c x) (d_rt_dry c dx) /\
+    tracks (PrimEq.rt_moist (dcfg c) (dmoist m) (dcol x dx) Q) (PrimEq.rt_moist c m x q) (d_rt_moist c m x dx q dq) /\
+    tracks (PrimEq.rt_cloud (dcfg c) (dmoist m) (dcol x dx) Q QC QI) (PrimEq.rt_cloud c m x q qc qi)
+           (d_rt_cloud c m x dx q qc qi dq dqc dqi).
+  Proof.
+    intros HQ HC HI. split; [exact (rt_dry_jvp c x dx)|].
+    split; [exact (rt_moist_jvp c m x dx Q q dq HQ) | exact (rt_cloud_jvp c m x dx Q QC QI q dq qc dqc qi dqi HQ HC HI)].
+  Qed.
+
+  Theorem C08_combined_uv_jvp c va (x dx : @PrimEq.NCol F) RT (rt drt : nat -> F) k : tracks RT rt drt ->
+    PrimEq.combined_u (dcfg c) va (dcol x dx) RT k
+    = mkdual (PrimEq.combined_u c va x rt k) (d_combined_u c va x dx rt drt k) /\
+    PrimEq.combined_v (dcfg c) va (dcol x dx) RT k
+    = mkdual (PrimEq.combined_v c va x rt k) (d_combined_v c va x dx rt drt k).
+  Proof.
+    intros H. split; [exact (combined_u_jvp c va x dx RT rt drt k H) | exact (combined_v_jvp c va x dx RT rt drt k H)].
+  Qed.
+
+  (** the "finite for every admissible state" side conditions: layer thickness and
+      1 + (Cp_vapor/Cp - 1) q are the denominators that involve the level set / the state *)
+  Theorem C08_temp_adiabatic_moist_jvp c m (x dx : @PrimEq.NCol F) Q (q dq : nat -> F) n :
+    thickness (Implicit.cb c) n <> 0 -> (forall k, moist_den c m q k <> 0) -> tracks Q q dq ->
+    PrimEq.temp_adiabatic_moist (dcfg c) (dmoist m) (dcol x dx) Q n
+    = mkdual (PrimEq.temp_adiabatic_moist c m x q n) (d_temp_adiabatic_moist c m x dx q dq n).
+  Proof. exact (temp_adiabatic_moist_jvp c m x dx Q q dq n). Qed.
+
+  Theorem C08_humidity_terms_jvp c m (x dx : @PrimEq.NCol F) Q GX GY (q dq gqx dgqx gqy dgqy : nat -> F) lap dlap k :
+    tracks Q q dq -> tracks GX gqx dgqx -> tracks GY gqy dgqy ->
+    PrimEq.humidity_div_nodal (dcfg c) (dmoist m) (dcol x dx) Q GX GY (mkdual lap dlap) k
+    = mkdual (PrimEq.humidity_div_nodal c m x q gqx gqy lap k)
+             (d_humidity_div_nodal c m x dx q gqx gqy dq dgqx dgqy lap dlap k) /\
+    PrimEq.humidity_curl_nodal (dcfg c) (dmoist m) (dcol x dx) GX GY k
+    = mkdual (PrimEq.humidity_curl_nodal c m x gqx gqy k) (d_humidity_curl_nodal c m x dx gqx gqy dgqx dgqy k) /\
+    tracks (PrimEq.humidity_temperature_diff (dcfg c) (dmoist m) (dcol x dx) Q)
+           (PrimEq.humidity_temperature_diff c m x q) (d_humidity_temperature_diff c m x dx q dq).
+  Proof.
+    intros HQ HX HY. split; [exact (humidity_div_nodal_jvp c m x dx Q GX GY q dq gqx dgqx gqy dgqy lap dlap k HQ HX HY)|].
+    split; [exact (humidity_curl_nodal_jvp c m x dx GX GY gqx dgqx gqy dgqy k HX HY)
+           | exact (humidity_temperature_diff_jvp c m x dx Q q dq HQ)].
+  Qed.
+
+  Theorem C08_temp_nodal_total_jvp c va (x dx : @PrimEq.NCol F) n : thickness (Implicit.cb c) n <> 0 ->
+    PrimEq.temp_nodal_total (dcfg c) va (dcol x dx) n
+    = mkdual (PrimEq.temp_nodal_total c va x n)
+             (d_hsa_nodal x dx (PrimEq.n_temp x) (PrimEq.n_temp dx) n + d_temp_vertical_tendency c va x dx n
+              + d_temp_adiabatic c x dx n).
+  Proof. exact (temp_nodal_total_jvp c va x dx n). Qed.
+
+  Theorem C08_log_pressure_tendency_jvp c (x dx : @PrimEq.NCol F) :
+    PrimEq.log_pressure_tendency (dcfg c) (dcol x dx)
+    = mkdual (PrimEq.log_pressure_tendency c x)
+             (- sigma_integral (Implicit.cK c) (Implicit.cb c) (d_u_dot_grad x dx)).
+  Proof. exact (log_pressure_tendency_jvp c x dx). Qed.
+
+  (** *** (d) filters: linear and diagonal in the state *)
+  Theorem C08_filter_jvp_is_self (sc x dx : @Filters.arr F) idx : fst dx = fst x ->
+    fst (Filters.rescale (carr sc) (darr x dx)) = fst (Filters.rescale sc x) /\
+    snd (Filters.rescale (carr sc) (darr x dx)) idx
+    = mkdual (snd (Filters.rescale sc x) idx) (snd (Filters.rescale sc dx) idx).
+  Proof. exact (rescale_jvp_is_self sc x dx idx). Qed.
+
+  Theorem C08_filter_self_adjoint (sc x y : @Filters.arr F) idx : fst y = fst x ->
+    snd (Filters.rescale sc x) idx * snd y idx = snd x idx * snd (Filters.rescale sc y) idx.
+  Proof. exact (rescale_self_adjoint sc x y idx). Qed.
+End C08ops.
+
+(** Non-vacuity of the hypotheses of this part, over Qc: recurrence tables with a[., l+1] = b[., l]
+    (and a concrete entry where D1^T = -D2 is evaluated), an uneven two-layer level set with
+    non-zero thicknesses, a humidity column with non-zero moist denominators, and the moist
+    adiabatic term evaluated at dual numbers on that instance with a non-zero tangent. *)
+Example C08_ops_example :
+  let a := fun (_ l : nat) => Q2Qc (nth l [0; 1#2; 1#3]%Q 0%Q) in
+  let b := fun (_ l : nat) => Q2Qc (nth l [1#2; 1#3; 0]%Q 0%Q) in
+  let y := fun (i l : nat) => Q2Qc (nth l [2; -3#1; 5]%Q 0%Q) in
+  let c := @Implicit.mkPE Qc 2 (Q2Qc 287) (Q2Qc (2#7)) (fun k => Q2Qc (nth k [-2#1; -1#4]%Q 0%Q))
+                          (fun k => Q2Qc (nth k [0; 1#4; 1]%Q 0%Q)) (fun k => Q2Qc (nth k [250; 260]%Q 0%Q)) in
+  let m := @PrimEq.mkMoist Qc (Q2Qc 461) (Q2Qc 1860) in
+  let col := fun s : Q => @PrimEq.mkNCol Qc (fun k => Q2Qc (s * (1 + inject_Z (Z.of_nat k)))) (fun _ => Q2Qc (s * 2))
+                 (fun _ => Q2Qc s) (fun k => Q2Qc (s * (3 - inject_Z (Z.of_nat k)))) (fun _ => Q2Qc (5 * s))
+                 (Q2Qc (s / 2)) (Q2Qc (s / 3)) (Q2Qc 2) (Q2Qc (1#10)) in
+  let q := fun k : nat => Q2Qc (nth k [1#100; 1#50]%Q 0%Q) in
+  let dq := fun k : nat => Q2Qc (nth k [1; -1#2]%Q 0%Q) in
+  H_ab_shift 3 a b /\ H_b_trunc 3 3 b /\ Thm.Deriv.layout_ok false 3 /\
+  D1T 3 3 a b y 1%nat 1%nat = - Deriv.D2 3 3 a b y 1%nat 1%nat /\ D1T 3 3 a b y 1%nat 1%nat <> 0 /\
+  (forall n, (n < 2)%nat -> thickness (Implicit.cb c) n <> 0) /\ (forall k, moist_den c m q k <> 0) /\
+  ep (PrimEq.temp_adiabatic_moist (dcfg c) (dmoist m) (dcol (col 1) (col (1#2))) (fun k => mkdual (q k) (dq k)) 1%nat)
+  = d_temp_adiabatic_moist c m (col 1) (col (1#2)) q dq 1%nat /\
+  d_temp_adiabatic_moist c m (col 1) (col (1#2)) q dq 1%nat <> 0.
+Proof.
+  cbv zeta.
+  split; [intros i l H; destruct l as [|[|l]]; [reflexivity|reflexivity|lia]|].
+  split; [intros i l H1 H2; lia|].
+  split; [reflexivity|].
+  split; [apply Qc_is_canon; vm_compute; reflexivity|].
+  split; [intro H; vm_compute in H; discriminate H|].
+  split; [intros n Hn; destruct n as [|[|n]]; [| |lia]; intro H; vm_compute in H; discriminate H|].
+  split; [intros k; destruct k as [|[|[|k]]]; intro H; vm_compute in H; discriminate H|].
+  split; [apply Qc_is_canon; vm_compute; reflexivity|].
+  intro H; vm_compute in H; discriminate H.
+Qed.
+
 Print Assumptions C08_dual_ring.
 Print Assumptions C08_dual_is_derivative.
 Print Assumptions C08_derivative_linear.
@@ -118,3 +344,33 @@ Print Assumptions C08_linear_jvp_vjp.
 Print Assumptions C08_advection_jvp.
 Print Assumptions C08_checkpoint_irrelevant.
 Print Assumptions C08_example.
+Print Assumptions C08_synth_analysis_adjoint.
+Print Assumptions C08_synth_adjoint.
+Print Assumptions C08_synthT_is_unweighted_analysis.
+Print Assumptions C08_analysis_adjoint.
+Print Assumptions C08_analysisT_is_weighted_synth.
+Print Assumptions C08_synth_jvp_is_self.
+Print Assumptions C08_d_dlon_skew.
+Print Assumptions C08_D1_adjoint.
+Print Assumptions C08_D2_adjoint.
+Print Assumptions C08_D1T_is_neg_D2.
+Print Assumptions C08_diag_self_adjoint.
+Print Assumptions C08_cos_lat_grad_adjoint.
+Print Assumptions C08_grad_div_adjoint.
+Print Assumptions C08_u_dot_grad_jvp.
+Print Assumptions C08_sigma_dot_jvp.
+Print Assumptions C08_vertical_tendency_jvp.
+Print Assumptions C08_t_omega_jvp.
+Print Assumptions C08_temp_adiabatic_jvp.
+Print Assumptions C08_temp_vertical_tendency_jvp.
+Print Assumptions C08_kinetic_jvp.
+Print Assumptions C08_hsa_jvp.
+Print Assumptions C08_rt_jvp.
+Print Assumptions C08_combined_uv_jvp.
+Print Assumptions C08_temp_adiabatic_moist_jvp.
+Print Assumptions C08_humidity_terms_jvp.
+Print Assumptions C08_temp_nodal_total_jvp.
+Print Assumptions C08_log_pressure_tendency_jvp.
+Print Assumptions C08_filter_jvp_is_self.
+Print Assumptions C08_filter_self_adjoint.
+Print Assumptions C08_ops_example.
